@@ -3,6 +3,7 @@
 From Coq Require Import ZArith QArith Qabs List Bool Arith Uint63.
 From Verif.Lib Require Import QRound.
 From Verif.Model Require Import Result Credit Pipeline.
+From Verif.Model Require Export PipelineTables.
 Import ListNotations.
 Open Scope Q_scope.
 
@@ -13,25 +14,6 @@ Definition unpack1 (i : int) : list Z := if Uint63.eqb i 0 then [] else [(Uint63
 Definition unpack3 (i : int) : list Z :=
   unpack1 (Uint63.land i m21) ++ unpack1 (Uint63.land (Uint63.lsr i 21) m21) ++ unpack1 (Uint63.land (Uint63.lsr i 42) m21).
 Definition S_ (l : list int) : str := flat_map unpack3 l.
-
-Fixpoint path_eqb (a b : path) : bool :=
-  match a, b with
-  | [], [] => true
-  | x :: a', y :: b' => Nat.eqb x y && path_eqb a' b'
-  | _, _ => false
-  end.
-
-Fixpoint lookup {A} (d : A) (t : list (path * A)) (p : path) : A :=
-  match t with
-  | [] => d
-  | (q, a) :: r => if path_eqb p q then a else lookup d r p
-  end.
-
-Definition table_oracles_v (recompute : bool) (leafs : list (path * lout)) (perms : list (path * list (nat * nat)))
-           (bests : list (path * nat)) : oracles :=
-  mkO (lookup LMissing leafs) (lookup [] perms) (lookup 0%nat bests) recompute.
-(* the code as found *)
-Definition table_oracles := table_oracles_v false.
 
 Definition eps : Q := 1 # 1000000000.
 
